@@ -14,7 +14,7 @@ CHECKS = {
          "refmodel strict decoders define the declared extent; known finding: RouterInfo peer_size != 0."),
  "C04": ("model_checking", "exhaustive feeding of the C01 input space to every parser (own family: all inputs; other families: all bases and all mutants of default bases), all 65,536 type codes for type-parameterised functions, reflective invocation of every exported method with argument menus; recover() + watchdog",
          "Every execution in the bounded space is run to completion under recover(); a panic anywhere or a call exceeding the watchdog is a violation with a replayable input.",
-         "No-hang is decided by a generous per-call watchdog in this tier (plus the step-count bound of the instrumented build, see C18 notes)."),
+         "No-hang: deterministic step-count bound steps <= 30000 + 600*len(input) measured on the instrumented (overlay) build in a single-threaded pass; the 120 s per-call watchdog is only a backstop."),
  "C14": ("model_checking", "E1 over constructor argument tuples x single-defect menu (explicit-state: constructor -> Validate -> Bytes -> Read -> Bytes chains on live values), plus the parser-output side over the C01 input space",
          "Every model value within the deviation bound is combined with every documented structural defect (and 'none'); the chain constructor/Validate/Bytes/parse is executed on the real code and the three inclusion clauses are checked. Every parser-accepted value that validates must round-trip cleanly.",
          "Known findings record constructor/validator drifts pinned by the repository's own tests (NewOfflineSignature expires=0, NewKeysAndCert nil keys, NewRouterInfo)."),
